@@ -130,6 +130,9 @@ func NoMerge(b bool)     {}
 func ExpectPanic()       {}
 func Note(msg string)    {}
 
+// PreemptAtLocks makes every mutex acquisition a scheduling point in the engine.
+func PreemptAtLocks(b bool) {}
+
 // Quiesce waits until all other goroutines have finished or are blocked (natively: a short sleep).
 func Quiesce() { time.Sleep(50 * time.Millisecond) }
 func Tier() int {
